@@ -120,14 +120,37 @@ impl GenerateConfig {
 
     /// Load configuration from a file
     pub fn from_file<P: AsRef<Path>>(path: P) -> Result<Self, ConfigError> {
+        let config = Self::load_file(path)?;
+        config.validate()?;
+        Ok(config)
+    }
+
+    /// Read configuration from a file without validating it.
+    ///
+    /// For callers that merge further settings (command-line flags) on top and validate the
+    /// merged result.
+    pub fn load_file<P: AsRef<Path>>(path: P) -> Result<Self, ConfigError> {
         let content = fs::read_to_string(path)?;
         let config: Self = serde_json::from_str(&content)?;
-        config.validate()?;
         Ok(config)
     }
 
     /// Load configuration from Tauri configuration file
     pub fn from_tauri_config<P: AsRef<Path>>(path: P) -> Result<Option<Self>, ConfigError> {
+        match Self::load_tauri_config(path)? {
+            Some(config) => {
+                config.validate()?;
+                Ok(Some(config))
+            }
+            None => Ok(None),
+        }
+    }
+
+    /// Read the typegen section of a Tauri configuration file without validating it.
+    ///
+    /// For callers that merge further settings (command-line flags) on top and validate the
+    /// merged result.
+    pub fn load_tauri_config<P: AsRef<Path>>(path: P) -> Result<Option<Self>, ConfigError> {
         let content = fs::read_to_string(path)?;
         let tauri_config: serde_json::Value = serde_json::from_str(&content)?;
 
@@ -184,7 +207,6 @@ impl GenerateConfig {
                     config.force = Some(force);
                 }
 
-                config.validate()?;
                 return Ok(Some(config));
             }
         }
